@@ -4,7 +4,7 @@
    Proved on the parsed programs themselves (rules in another order that give the same function still prove). *)
 From Coq Require Import ZArith List Bool.
 Import ListNotations.
-From CR Require Import Model.Network Model.NetworkSrc Gen.Src_network.
+From CR Require Import Base.G2Fold Model.Network Proofs.Network Model.NetworkSrc Gen.Src_network.
 Open Scope Z_scope.
 
 Lemma keepd_keepo k o d : keepd k (keepo k o) d = keepd k o d.
@@ -95,3 +95,18 @@ Proof.
   destruct (mem i (inter_ids n)) eqn:E; [reflexivity|].
   unfold inter_ids in E. rewrite (filter_absent x_id i (inters n) E). destruct n; reflexivity.
 Qed.
+
+(* ---- what the parsed remove methods compute on a well-formed network: the kept part, with exactly the references to
+   the removed element gone (Proofs/Network.v: remove_* = restrict) *)
+Theorem src_remove_lanelet_is_restrict i n : WF n ->
+  run_remove src_remove_lanelet (run_cleanup src_cleanup_lanelets) i n = restrict (neq i) all all all n.
+Proof. intro H. rewrite src_remove_lanelet_is_model. exact (net_remove_lanelet_spec i n H). Qed.
+Theorem src_remove_sign_is_restrict i n : WF n ->
+  run_remove src_remove_sign (run_cleanup src_cleanup_signs) i n = restrict all (neq i) all all n.
+Proof. intro H. rewrite src_remove_sign_is_model. exact (net_remove_sign_spec i n H). Qed.
+Theorem src_remove_light_is_restrict i n : WF n ->
+  run_remove src_remove_light (run_cleanup src_cleanup_lights) i n = restrict all all (neq i) all n.
+Proof. intro H. rewrite src_remove_light_is_model. exact (net_remove_light_spec i n H). Qed.
+Theorem src_remove_inter_is_restrict i n : WF n ->
+  run_remove src_remove_inter (fun m => m) i n = restrict all all all (neq i) n.
+Proof. intro H. rewrite src_remove_inter_is_model. exact (net_remove_inter_spec i n H). Qed.
